@@ -162,8 +162,8 @@ def probe_edge(inp) -> ProbeResult:
 
 
 PARTS = [
-    Part("node_map", node_inputs(), probe_node, quick=6000, thorough=200000),
-    Part("edge_map", edge_inputs(), probe_edge, quick=1500, thorough=40000),
+    Part("node_map", node_inputs(), probe_node, quick=20000, thorough=300000),
+    Part("edge_map", edge_inputs(), probe_edge, quick=4000, thorough=60000),
 ]
 
 
